@@ -178,6 +178,7 @@ class Contract:
     branch_iff: dict = field(default_factory=dict)  # "if#k" -> Clause: branch taken exactly under the condition
     lemmas_at: dict = field(default_factory=dict)   # "entry" / "post" / "after ..." -> ["lemma(args)"]
     ghost_results: dict = field(default_factory=dict)  # ghost locals mentioned by ensures: name -> T (existential for callers)
+    assigns: Optional[list] = None                  # attribute targets the method may assign (frame); None = unchecked
     fields: dict = field(default_factory=dict)      # object state at entry: "self.__x" -> T  (P-subset methods)
     block: Optional[tuple] = None       # (first key, last key): the contract is a Hoare triple on this contiguous block of
                                         # statements of the function ("assign x #0" style keys); `params` are the block's inputs
